@@ -102,7 +102,7 @@ def graph_to_mol(g: nx.Graph, ignore_aam=False) -> Chem.rdchem.Mol:
         idx = rw_mol.AddAtom(Chem.rdchem.Atom(atom_symbol))
         idx_map[n] = idx
         if not ignore_aam and AAM_KEY in d.keys() and d[AAM_KEY] >= 0:
-            rw_mol.GetAtomWithIdx(idx).SetAtomMapNum(d[AAM_KEY])
+            rw_mol.GetAtomWithIdx(idx).SetAtomMapNum(int(d[AAM_KEY]))
     for n1, n2, d in g.edges(data=True):
         if d is None:
             raise ValueError("Graph edge {} has no data.".format((n1, n2)))
